@@ -170,7 +170,7 @@ def boundary_values(rnd, extra_random):
         for d in range(-2, 3):
             if c + d >= 0:
                 vals.add(c + d)
-    for u in SIZE_UNITS.values():
+    for u in list(SIZE_UNITS.values()) + [60, 3600, 86400]:
         for d in range(-2, 3):
             if U64 // u + d >= 0:
                 vals.add(U64 // u + d)
@@ -529,6 +529,8 @@ def gen_totality(tier, rnd):
     for kw in NUMERIC:
         for v in boundary_values(rnd, 0):
             add('%s %d' % (kw, v))
+            add('%s +%d' % (kw, v))
+            add('%s -%d' % (kw, v))
             if NUMERIC[kw] == 'size':
                 for u in SIZE_UNITS:
                     add('%s %d%s' % (kw, v, u))
